@@ -599,12 +599,16 @@ impl LogReader {
             )));
         }
 
-        // Parse the payload
-        let serialized_block = [header_buffer.to_vec(), data_buffer].concat();
-        let block_record: BlockRecord = BlockRecord::try_from(&serialized_block)?;
+        // The fragment was read completely, so account for it before it is parsed. A fragment that
+        // fails its checksum is skipped by the caller and the reader must stay aligned with the
+        // file for the fragments that follow it.
         self.current_cursor_position += header_buffer.len() + data_bytes_read;
         self.current_block_offset =
             (self.current_block_offset + data_bytes_read) % BLOCK_SIZE_BYTES;
+
+        // Parse the payload
+        let serialized_block = [header_buffer.to_vec(), data_buffer].concat();
+        let block_record: BlockRecord = BlockRecord::try_from(&serialized_block)?;
 
         Ok(block_record)
     }
